@@ -15,6 +15,8 @@ PARTIAL = [("c13_order_iso (loadAll (perm dbs) is isomorphic to loadAll dbs)",
             "(all k! orders, k<=3 quick / k<=4 thorough) in the real library, comparing with the model and with the disjoint-union oracle"),
            ("c13_closed (cross references are carried to merged indices)",
             "checked on the real library for every permutation by the `closed` walk and by the canonical-form oracle; Lean proof pending")]
+LKMEM = {"type_name": ("type", "_name"), "type_scoped_name": ("type", "_scoped_name"), "type_true_name": ("type", "_true_name"),
+         "manifest_name": ("manifest", "_name"), "element_name": ("element", "_name"), "element_scoped_name": ("element", "_scoped_name")}
 LKS = ["type_name", "type_scoped_name", "type_true_name", "manifest_name", "element_name", "element_scoped_name"]
 
 
@@ -48,8 +50,8 @@ def make_libset(lay, rng, k, tag):
                     r["_flags"] |= FD
                 else:
                     r["_flags"] &= ~FD
-                    if rng.random() < 0.5:
-                        r["_flags"] &= ~GL
+                # global-ness varies independently on both sides
+                r["_flags"] = (r["_flags"] | GL) if rng.random() < 0.5 else (r["_flags"] & ~GL)
         # an atomic type every library defines identically
         if types and rng.random() < 0.7:
             i, r = types[0]
@@ -167,11 +169,14 @@ def run(ck):
                 orders = rng.sample(orders, 6)
             for order in orders:
                 ops = ["reset"]
+                inter = []   # (op index, lookup kind, name, libraries requested so far)
                 for pos, j in enumerate(order):
                     ops.append("reqfile %s" % paths[j])
                     # queries between requests: lookups of names from all libraries (loaded or not yet), enumerations
                     for nm in rng.sample(names, min(len(names), 6)):
-                        ops.append("lookup %s %s" % (rng.choice(LKS), dbgen.hexs(nm)))
+                        lk = rng.choice(LKS)
+                        ops.append("lookup %s %s" % (lk, dbgen.hexs(nm)))
+                        inter.append((len(ops) - 1, lk, nm, list(order[:pos + 1])))
                     ops += ["enumcnt global_types", "enumcnt all_types", "enumcnt all_functions", "next"]
                 for nm in names:
                     ops.append("lookup type_true_name %s" % dbgen.hexs(nm))
@@ -234,6 +239,14 @@ def run(ck):
                         ans = impl[base + q]
                         if (nm in present) != (ans != "0"):
                             problem = "lookup type_true_name(%r) = %s after all files were loaded (type present: %s)" % (nm, ans, nm in present)
+                            break
+                if not problem:
+                    for at, lk, nm, loaded in inter:
+                        kind, member = LKMEM[lk]
+                        present = any(r[member] == nm for j in loaded for _, r in libs[j][kind])
+                        if present != (impl[at] != "0"):
+                            problem = "lookup %s(%r) asked after requesting libraries %s returned %s (an entry bearing the name is %s among them)" % (
+                                lk, nm, loaded, impl[at], "present" if present else "absent")
                             break
                 if problem:
                     ck.violation("merge:" + problem.split(":")[0][:40], "order %s: %s" % (list(order), problem), files)
